@@ -420,6 +420,7 @@ class Interp:
 
     def ev_Yield(self, e, fr):
         v = self.ev(e.value, fr) if e.value is not None else None
+        self._yield_frame = fr
         self.do_yield(v, e)
         return None
 
@@ -436,6 +437,9 @@ class Interp:
         if self.yield_hook is None:
             raise Unsupported('yield outside a generator contract')
         self.yield_hook(v, node)
+
+    def live_frame(self, node):
+        return getattr(self, '_yield_frame', None)
 
     # -------------------------------------------------------------- operators
     def truth(self, v):
